@@ -293,8 +293,10 @@ def extra_props(op, name):
         out += ['C14']
     if name in ('index_panic_mismatch', 'fail_changed', 'fail_not_prefix', 'panic_state', 'frame_changed'):
         out += ['C01']      # the outcome / resulting value differs from what String does
-    if name in ('growth_bounds',) :
-        out += []
+    if op_has_big_arg(op) and name in ('out_of_bounds', 'guard_damaged', 'text_mismatch', 'utf8_invalid', 'cap_lt_len', 'refcount_mismatch',
+                                       'use_after_free', 'process_abort', 'panic_other', 'bad_layout', 'frame_changed', 'reserve_small',
+                                       'with_capacity_small', 'orphan_block', 'leak', 'double_free'):
+        out += ['C06']      # a size argument >= 2^20 corrupted something
     return out
 
 # ------------------------------------------------------------------------------------------------ property table
